@@ -8,13 +8,34 @@ import (
 	"github.com/sqlc-dev/doubleclick/ast"
 )
 
-// inSubqueryContext is a package-level flag to track when we're inside a Subquery
-// This affects how negated literals with aliases are formatted
-var inSubqueryContext bool
-
-// inCreateQueryContext is a package-level flag to track when we're inside a CreateQuery
-// This affects whether FORMAT is output at SelectWithUnionQuery level (it shouldn't be, as CreateQuery outputs it)
-var inCreateQueryContext bool
+// withoutFormat returns stmt itself unless it is a SelectWithUnionQuery one of whose SELECTs
+// carries a FORMAT clause; in that case it returns a shallow copy in which those SELECTs are
+// replaced by copies with Format cleared. It is used where FORMAT belongs to the enclosing
+// statement (CREATE ... AS SELECT, INSERT ... SELECT) and must not be printed with the SELECT.
+// The caller's tree is never modified, so Explain stays read-only and safe for concurrent use.
+func withoutFormat(stmt ast.Statement) ast.Statement {
+	swu, ok := stmt.(*ast.SelectWithUnionQuery)
+	if !ok || swu == nil {
+		return stmt
+	}
+	var cp *ast.SelectWithUnionQuery
+	for i, sel := range swu.Selects {
+		if sq, ok := sel.(*ast.SelectQuery); ok && sq != nil && sq.Format != nil {
+			if cp == nil {
+				c := *swu
+				c.Selects = append([]ast.Statement(nil), swu.Selects...)
+				cp = &c
+			}
+			sqCopy := *sq
+			sqCopy.Format = nil
+			cp.Selects[i] = &sqCopy
+		}
+	}
+	if cp == nil {
+		return stmt
+	}
+	return cp
+}
 
 // Explain returns the EXPLAIN AST output for a statement, matching ClickHouse's format.
 func Explain(stmt ast.Statement) string {
